@@ -293,6 +293,26 @@ func JoinQuery(rt *rapid.T, db *model.DB, misaddress bool) Select {
 		var conj []model.Cmp
 		hasS := func(t *model.Table) bool { return t.ColIdx("s") >= 0 }
 		for k := 0; k < ncmp; k++ {
+			if rapid.IntRange(0, 11).Draw(rt, "onconst") == 0 {
+				// a condition that mentions no column: true or false for every pair alike
+				a, b := model.Int(int64(rapid.IntRange(0, 2).Draw(rt, "onca"))), model.Int(int64(rapid.IntRange(0, 2).Draw(rt, "oncb")))
+				conj = append(conj, model.Cmp{L: model.Operand{Lit: &a}, Op: rapid.SampledFrom([]string{"=", "=", "!=", "<"}).Draw(rt, "oncop"), R: model.Operand{Lit: &b}})
+				continue
+			}
+			if r.t.Name == "sys_schema" && rapid.Bool().Draw(rt, "oncat") {
+				// the catalog joined to itself on a name column
+				var cands []side
+				for _, sd := range avail {
+					if sd.t.Name == "sys_schema" {
+						cands = append(cands, sd)
+					}
+				}
+				if len(cands) > 0 {
+					col := rapid.SampledFrom([]string{"field_name", "table_name"}).Draw(rt, "oncatcol")
+					conj = append(conj, model.Cmp{L: model.Operand{Qual: cands[0].ref.ID(), Col: col}, Op: "=", R: model.Operand{Qual: r.ref.ID(), Col: col}})
+					continue
+				}
+			}
 			if hasS(r.t) && rapid.IntRange(0, 2).Draw(rt, "ons") == 0 {
 				// string component of a composite key: s = s against an earlier, never-padded table
 				var cands []side
